@@ -70,6 +70,18 @@ func hopsReal(e error, k int) (res error, ok bool) {
 	return res, ok
 }
 
+// skipFmt is set while building a case whose recipe uses context tags with Safe or nil
+// values: the model renders tag values as plain strings (DESIGN: trusted base), so the
+// formatting streams of such cases are not compared.
+var skipFmt bool
+
+func fmtField(name string, f func() SX) SX {
+	if skipFmt {
+		return L(Sym(name+"-skipped"))
+	}
+	return L(Sym(name), f())
+}
+
 // obsCase computes the real-code observations of a case, in the same shape as
 // ErrModel.obsCase.
 func obsCase(e error, refs []error) SX {
@@ -108,6 +120,8 @@ func obsCase(e error, refs []error) SX {
 		L(Sym("acc0"), optSX(func() SX { return accSX(e) })),
 		L(Sym("acc1"), onHop(h1, ok1, accSX)),
 		L(Sym("acc2"), onHop(h2, ok2, accSX)),
+		fmtField("fmt0", func() SX { return optSX(func() SX { return fmtSX(e) }) }),
+		fmtField("fmt1", func() SX { return onHop(h1, ok1, fmtSX) }),
 		L(Sym("compat"), optSX(func() SX { return compatSX(e, refs) })),
 		L(Sym("isany"), optSX(func() SX { return Bool(errors.IsAny(e, refs...)) })),
 		L(Sym("isanyhalf"), optSX(func() SX { return Bool(errors.IsAny(e, refs[:len(refs)/2]...)) })),
